@@ -45,7 +45,8 @@ func runGpromise(c *Ctx) {
 	// --- Promise.SetResult
 	if d := c.declByName("R9", "promise", "Promise", "SetResult"); d != nil {
 		name := core.FuncName(d.Obj)
-		won := fnot(fld("promise.Promise.isDone.Swap(true)"))
+		// the election: winning Swap(true) (it returned false) or winning CompareAndSwap(false, true)
+		won := for_(fnot(fld("promise.Promise.isDone.Swap(true)")), fld("promise.Promise.isDone.CompareAndSwap(false,true)"))
 		c.Walk("R9", &core.Config{Follow: samePkgFollow(d.Pkg.PkgPath)}, core.Entry{Decl: d}, func(p *core.Path) {
 			g := prepare(c, p)
 			wrote := false
@@ -447,13 +448,17 @@ func runGpromise(c *Ctx) {
 							ats := map[string]*formula{}
 							l.f.atoms(ats)
 							for n := range ats {
-								if strings.HasPrefix(n, "F(") && strings.HasSuffix(n, ".Swap(true))") {
+								if strings.HasPrefix(n, "F(") && (strings.HasSuffix(n, ".Swap(true))") || strings.HasSuffix(n, ".CompareAndSwap(false,true))")) {
 									elect = append(elect, n)
 								}
 							}
 						}
 						if len(elect) == 1 {
-							want = fnot(atom(elect[0]))
+							if strings.HasSuffix(elect[0], ".Swap(true))") {
+								want = fnot(atom(elect[0])) // Swap returned the old value false
+							} else {
+								want = atom(elect[0]) // the CompareAndSwap succeeded
+							}
 						}
 						a.requireGuard("R8", lname+"/call-once", g, i, false, want, "calling the memoized function")
 						a.note("R8", lname+"/close-deferred-before-call", ev.Pos, !closeDeferred, "close(done) is deferred before fn is called", "fn is called before close(done) is deferred: if fn panics the other callers block forever, or the result is published before it is written", p)
@@ -482,10 +487,50 @@ func runGccall(c *Ctx) {
 		d *core.FuncDecl
 	}
 	var workers []workerLit
+	// (a worker is a literal started with go — directly or through the local it is bound to; closures
+	// it merely calls are part of its body)
 	for _, wd := range pkgDecls(c, "ccall") {
-		for _, l := range escapingLits(c, wd) {
-			workers = append(workers, workerLit{l, wd})
-		}
+		wd := wd
+		ei := core.EscapesOf(c.Prog, wd)
+		seen := map[*ast.FuncLit]bool{}
+		ast.Inspect(wd.Decl.Body, func(n ast.Node) bool {
+			gs, ok := n.(*ast.GoStmt)
+			if !ok {
+				return true
+			}
+			var ls []*ast.FuncLit
+			switch f := unparen(gs.Call.Fun).(type) {
+			case *ast.FuncLit:
+				ls = append(ls, f)
+			case *ast.Ident:
+				ls = append(ls, ei.Bound[wd.Pkg.TypesInfo.Uses[f]]...)
+			}
+			for _, l := range ls {
+				if !seen[l] {
+					seen[l] = true
+					workers = append(workers, workerLit{l, wd})
+				}
+			}
+			return true
+		})
+	}
+	// the body of a worker: its own, and those of the local closures it calls
+	workerBodies := func(l *ast.FuncLit, d *core.FuncDecl) []*ast.FuncLit {
+		out := []*ast.FuncLit{l}
+		ei := core.EscapesOf(c.Prog, d)
+		ast.Inspect(l.Body, func(n ast.Node) bool {
+			if call, ok := n.(*ast.CallExpr); ok {
+				if id, ok := unparen(call.Fun).(*ast.Ident); ok {
+					for _, b := range ei.Bound[d.Pkg.TypesInfo.Uses[id]] {
+						if b != l {
+							out = append(out, b)
+						}
+					}
+				}
+			}
+			return true
+		})
+		return out
 	}
 	entryDecl := d
 	for li, wl := range workers {
@@ -500,25 +545,35 @@ func runGccall(c *Ctx) {
 		// the shared error (assigned in the worker, declared outside it), the worker's own error and
 		// the shared counter it decrements
 		var sharedErr, ownErr, counter *types.Var
-		ast.Inspect(l.Body, func(n ast.Node) bool {
-			switch x := n.(type) {
-			case *ast.AssignStmt:
-				if len(x.Lhs) == 1 && len(x.Rhs) == 1 {
-					lv := identVar(x.Lhs[0], &core.Frame{Pkg: d.Pkg})
-					if lv != nil && isErrorType(lv.Type()) && !(lv.Pos() >= l.Pos() && lv.Pos() < l.End()) {
-						sharedErr = lv
-						ownErr = identVar(x.Rhs[0], &core.Frame{Pkg: d.Pkg})
-					}
-				}
-			case *ast.IncDecStmt:
-				if x.Tok == token.DEC {
-					if v := identVar(x.X, &core.Frame{Pkg: d.Pkg}); v != nil && !(v.Pos() >= l.Pos() && v.Pos() < l.End()) {
-						counter = v
-					}
+		outside := func(v *types.Var) bool { // declared outside the worker and the closures it calls
+			for _, b := range workerBodies(l, d) {
+				if v.Pos() >= b.Pos() && v.Pos() < b.End() {
+					return false
 				}
 			}
 			return true
-		})
+		}
+		for _, wb := range workerBodies(l, d) {
+			ast.Inspect(wb.Body, func(n ast.Node) bool {
+				switch x := n.(type) {
+				case *ast.AssignStmt:
+					if len(x.Lhs) == 1 && len(x.Rhs) == 1 {
+						lv := identVar(x.Lhs[0], &core.Frame{Pkg: d.Pkg})
+						if lv != nil && isErrorType(lv.Type()) && outside(baseVar(lv)) {
+							sharedErr = lv
+							ownErr = identVar(x.Rhs[0], &core.Frame{Pkg: d.Pkg})
+						}
+					}
+				case *ast.IncDecStmt:
+					if x.Tok == token.DEC {
+						if v := identVar(x.X, &core.Frame{Pkg: d.Pkg}); v != nil && outside(baseVar(v)) {
+							counter = v
+						}
+					}
+				}
+				return true
+			})
+		}
 		if sharedErr == nil || ownErr == nil {
 			c.MissingAnchor("R12", lname+": the assignment of the worker's error to the shared error variable")
 			continue
@@ -581,21 +636,32 @@ func runGccall(c *Ctx) {
 	d = entryDecl
 	for _, wl := range workers {
 		l, d := wl.l, wl.d
-		ast.Inspect(l.Body, func(n ast.Node) bool {
-			switch x := n.(type) {
-			case *ast.IncDecStmt:
-				if v := identVar(x.X, &core.Frame{Pkg: d.Pkg}); v != nil && x.Tok == token.DEC && !(v.Pos() >= l.Pos() && v.Pos() < l.End()) {
-					counterVar = v
-				}
-			case *ast.AssignStmt:
-				if len(x.Lhs) == 1 {
-					if v := identVar(x.Lhs[0], &core.Frame{Pkg: d.Pkg}); v != nil && isErrorType(v.Type()) && !(v.Pos() >= l.Pos() && v.Pos() < l.End()) {
-						sharedErrVar = v
+		for _, wb := range workerBodies(l, d) {
+			wb := wb
+			in := func(v *types.Var) bool {
+				for _, b := range workerBodies(l, d) {
+					if v.Pos() >= b.Pos() && v.Pos() < b.End() {
+						return true
 					}
 				}
+				return false
 			}
-			return true
-		})
+			ast.Inspect(wb.Body, func(n ast.Node) bool {
+				switch x := n.(type) {
+				case *ast.IncDecStmt:
+					if v := identVar(x.X, &core.Frame{Pkg: d.Pkg}); v != nil && x.Tok == token.DEC && !in(baseVar(v)) {
+						counterVar = v
+					}
+				case *ast.AssignStmt:
+					if len(x.Lhs) == 1 {
+						if v := identVar(x.Lhs[0], &core.Frame{Pkg: d.Pkg}); v != nil && isErrorType(v.Type()) && !in(baseVar(v)) {
+							sharedErrVar = v
+						}
+					}
+				}
+				return true
+			})
+		}
 	}
 	c.Walk("R13a", &core.Config{Follow: samePkgFollow(d.Pkg.PkgPath)}, core.Entry{Decl: d}, func(p *core.Path) {
 		g := prepare(c, p)
